@@ -30,23 +30,28 @@ HARNESSES = [
 def _o(routine, func, shapes_quick, shapes_thorough, what, **kw):
     R = 'R_' + routine.upper()
     mk = lambda t: _sh(t[0], t[1], **dict({R: 1}, **(t[2] if len(t) > 2 else {}))) if t[1] is not None else dict({k: v for k, v in _sh(t[0], ()).items() if k != 'NB'}, **{R: 1})
-    return dict(name=routine + '_el', src='harnesses/C16_other.c', func=func, kernels=['C16_' + routine], unwind=kw.pop('unwind', 6),
+    return dict(name=routine + kw.pop('suffix', '_el'), src='harnesses/C16_other.c', func=func, kernels=['C16_' + routine], unwind=kw.pop('unwind', 6),
                 bounds='view::%s, hybrid operands; %s; ' % (routine, what) + EL, quick=[mk(t) for t in shapes_quick], thorough=[mk(t) for t in shapes_thorough], **kw)
 
 
 HARNESSES += [
- _o('outer', 'h_outer', [((2,), (3,)), ((2, 2), (2,))], [((3,), (3,)), ((2, 2), (3,)), ((2,), (2, 2))], 'out[i,j] = a.flat[i]*b.flat[j]'),
- _o('trace', 'h_trace', [((2, 3), None), ((2, 2, 2), None)], [((3, 3), None), ((3, 2), None), ((2, 3, 2), None)], 'offset 0, axes (0,1)'),
- _o('kron', 'h_kron', [((2,), (2,)), ((2, 1), (1, 2))], [((2,), (3,)), ((2, 2), (2, 2))], 'np.kron of same-dim operands'),
+ _o('outer', 'h_outer', [((2,), (3,)), ((2, 2), (2,)), ((2,), (2, 2))], [((3,), (3,)), ((2, 2), (3,))], 'out[i,j] = a.flat[i]*b.flat[j]'),
+ _o('trace', 'h_trace', [((2, 3), None), ((3, 3), None), ((2, 2, 2), None)], [((3, 2), None), ((2, 3, 2), None)], 'offset 0, axes (0,1)'),
+ _o('kron', 'h_kron', [((2,), (2,)), ((2, 1), (1, 2)), ((2, 2), (2, 2))], [((2,), (3,))], 'np.kron of same-dim operands'),
  # measured (machine loaded 2-3x): 1-d x 1-d 30 s; (2,3)x(3,) 214 s / 3.8 GB; (2,3)x(2,3) out of memory at 5.3 GB in 65 s
- _o('vecdot', 'h_vecdot', [((3,), (3,))], [((2, 3), (3,)), ((2, 3), (2, 3)), ((2, 3), (1, 3))], 'sum over the last axis of the broadcast product', mem_gb=12),
+ _o('vecdot', 'h_vecdot', [((3,), (3,))], [((3,), (3,))], 'sum over the last axis of the broadcast product'),
+ _o('vecdot', 'h_vecdot', [], [((2, 3), (3,)), ((2, 3), (2, 3)), ((2, 3), (1, 3))], 'sum over the last axis of the broadcast product (2-d operands: thorough only, a timeout is recorded as no-verdict)', suffix='_el_2d', mem_gb=12, timeout=900, optional=True),
  # measured: 1-d 22 s; (2,2)x(2,) 126 s / 3.9 GB; (2,2)x(2,2) no verdict in 300 s
- _o('dot', 'h_dotlike', [((3,), (3,))], [((2, 2), (2,)), ((2, 2), (2, 2)), ((2, 3), (3,))], 'np.dot', mem_gb=12),
+ _o('dot', 'h_dotlike', [((3,), (3,))], [((3,), (3,))], 'np.dot'),
+ _o('dot', 'h_dotlike', [], [((2, 2), (2,)), ((2, 2), (2, 2)), ((2, 3), (3,))], 'np.dot (2-d operands: thorough only, a timeout is recorded as no-verdict)', suffix='_el_2d', mem_gb=12, timeout=900, optional=True),
  # measured: 1-d 39 s; (2,2)x(2,) 251 s / 4.0 GB; (2,2)x(2,2) no verdict in 300 s
- _o('inner', 'h_dotlike', [((3,), (3,))], [((2, 2), (2,)), ((2, 2), (2, 2)), ((2, 3), (3,))], 'np.inner', mem_gb=12),
+ _o('inner', 'h_dotlike', [((3,), (3,))], [((3,), (3,))], 'np.inner'),
+ _o('inner', 'h_dotlike', [], [((2, 2), (2,)), ((2, 2), (2, 2)), ((2, 3), (3,))], 'np.inner (2-d operands: thorough only, a timeout is recorded as no-verdict)', suffix='_el_2d', mem_gb=12, timeout=900, optional=True),
  # measured: 1-d axes=1 40 s; (2,2)x(2,2) axes=2 37-48 s; (2,2)x(2,2) axes=1 no verdict in 300 s
- _o('tensordot', 'h_tensordot', [((2,), (2,), {'AXES': 1}), ((2, 2), (2, 2), {'AXES': 2})], [((2, 2), (2, 2), {'AXES': 1}), ((2, 3), (2, 3), {'AXES': 2})],
-    'integer axes (compile-time constant 1 or default 2)', unwind=18, mem_gb=12),
+ _o('tensordot', 'h_tensordot', [((2,), (2,), {'AXES': 1}), ((2, 2), (2, 2), {'AXES': 2})], [((2,), (2,), {'AXES': 1}), ((2, 2), (2, 2), {'AXES': 2})],
+    'integer axes (compile-time constant 1 or default 2)', unwind=18),
+ _o('tensordot', 'h_tensordot', [], [((2, 2), (2, 2), {'AXES': 1}), ((2, 3), (2, 3), {'AXES': 2})],
+    'integer axes (thorough only, a timeout is recorded as no-verdict)', unwind=18, suffix='_el_2d', mem_gb=12, timeout=900, optional=True),
 ]
 
 
@@ -77,7 +82,9 @@ OUTSIDE = [
  'view::matmul (v1) with rank-1 operands: does not compile for fixed-dim operands (meta::range underflow in index::matmul); rank-1 promotion is only reachable through view::matmulv2',
  'view::matmulv2 elements: (2,)x(2,1) 380 s / 6.4 GB and (1,2)x(2,) 328 s / 4.2 GB return "holds" (thorough tier only, minisat; kissat out of memory at 11.5 GB, cadical no verdict in 600 s); '
  '(1,2)x(2,1), (3,)x(3,2), (2,3)x(3,), (2,2)x(2,2): no verdict in 300-600 s / out of memory at 5.4 GB - not claimed',
- 'vecdot (2,3)x(2,3): out of memory at 5.3 GB; dot, inner, tensordot(axes=1) on (2,2)x(2,2): no verdict in 300 s (quick budget) - attempted in the thorough tier only, not claimed unless they return',
+ '2-d operands of vecdot / dot / inner / tensordot are attempted in the thorough tier only (harnesses *_el_2d, optional: a timeout is recorded as no-verdict). Measured on a machine loaded 2-3x: '
+ 'vecdot (2,3)x(3,) holds 214-767 s / 3.8 GB, (2,3)x(1,3) holds 500 s / 6.1 GB, (2,3)x(2,3) no verdict in 900 s; dot (2,2)x(2,) holds 126-711 s / 3.9 GB, (2,3)x(3,) holds 261 s, (2,2)x(2,2) no verdict in 900 s; '
+ 'inner (2,2)x(2,) holds 251-278 s / 4.0 GB, (2,3)x(3,) and (2,2)x(2,2) no verdict in 900 s; tensordot (2,3)x(2,3) axes=2 holds 60 s, (2,2)x(2,2) axes=1 no verdict in 300-900 s. Only returned verdicts are claimed',
  'tensordot with explicit axis pairs, kron of operands with different dims, trace with offset/other axes, dot/inner of n-d x m-d operands',
  'mismatching operand shapes (C15: view::matmul unwraps a Nothing shape - see C15 PENDING_FINDINGS)',
  'float accumulation order, SIMD matmul, shape helper functions of dot/inner/kron/tensordot in isolation (covered through the routines\' result shapes at the enumerated shapes)',
